@@ -8,6 +8,7 @@ def parseOp (j : J) : Except String Op := do
     pure (.arrive (← j.bytes "fr") (← j.nat "port") (← j.optNat "dl"))
   else if k = "use" then pure (.use (← j.nat "id"))
   else if k = "usectl" then pure (.useCtl (← j.nat "id") (← j.nat "dl"))
+  else if k = "drop" then pure (.drop (← j.nat "id"))
   else if k = "setmiss" then pure (.setMiss (← j.nat "n"))
   else throw s!"unknown op {k}"
 
